@@ -647,6 +647,32 @@ def _compatible(a, b):
     return True
 
 
+def const_bytes(e):
+    """the bytes of a byte-string constant expression (`b"\\n\\n"`, possibly unsized): list of ints or None"""
+    import ast
+    x = e
+    for _ in range(4):
+        if x[0] == "cast":
+            x = x[4]
+    if x[0] == "const" and isinstance(x[1], str) and x[1].startswith('b"'):
+        try:
+            return list(ast.literal_eval(x[1]))
+        except Exception:   # noqa
+            return None
+    return None
+
+
+def const_len(e):
+    """value of `<[T]>::len(constant byte string)` / of an integer constant expression; None otherwise"""
+    if e[0] == "const" and e[2] is not None:
+        return e[2]
+    if e[0] == "call" and e[1].endswith("<impl [T]>::len") and e[2]:
+        bs = const_bytes(e[2][0])
+        if bs is not None:
+            return len(bs)
+    return None
+
+
 # ---------------------------------------------------------------------------- intervals
 def int_ty(ty):
     return ty if ty in INT_RANGES else None
